@@ -73,6 +73,27 @@ ASSUMPTIONS = [
 ]
 EXHAUSTIVE = {"quick": False, "thorough": False}
 
+
+def _qs(x):
+    """exact rational of a finite float; non-finite floats cross the protocol as "nan" / "inf" / "-inf"
+    (a non-finite coordinate is an observation - a point outside every domain - not a harness failure)"""
+    x = float(x)
+    if math.isnan(x):
+        return "nan"
+    if math.isinf(x):
+        return "inf" if x > 0 else "-inf"
+    return core.qstr(x)
+
+
+def _ql(a):
+    import numpy as np
+
+    a = np.asarray(a)
+    if a.ndim == 0:
+        return _qs(a.item())
+    return [_ql(x) for x in a]
+
+
 RANGES = [(0.0, 1.0), (-2.0, 2.0), (-3.0, -1.0), (0.5, 8.0), (-1024.0, 3.0)]
 
 
@@ -98,7 +119,7 @@ def _table(spec):
 def _tbl_json(a):
     if a is None:
         return None
-    return {"shape": list(a.shape), "data": core.qlist(a) if a.ndim <= 2 and a.size else []}
+    return {"shape": list(a.shape), "data": _ql(a) if a.ndim <= 2 and a.size else []}
 
 
 def _spec(tid, n, kind, cols=1, dup=False):
@@ -111,6 +132,7 @@ def _obs_case(rng, n, b, requests, pin_kind=None, val_kind=None, neq=None, dup=F
     val_kind = val_kind or rng.choice(["1d", "2d"])
     neq = rng.randint(0, 2) if neq is None else neq
     eq = [[name, _spec(3 + i, n, rng.choice(["1d", "2d"]), 1)] for i, name in enumerate(["nu", "alpha"][:neq])]
+    rng.shuffle(eq)     # the dict is built in this (insertion) order; pairing must be by key
     return {"kind": "obs", "n": n, "b": b, "requests": requests, "seed": rng.randrange(1 << 30),
             "pin": _spec(1, n, pin_kind, rng.randint(1, 3), dup), "val": _spec(2, n, val_kind, rng.randint(1, 2)),
             "eq": eq}
@@ -128,17 +150,30 @@ def _param_case(rng, n, b, method, requests, keys=None):
                 k["user"] = {**_spec(5 + i, n, rng.choice(["1d", "2d"]), 1, dup=rng.random() < 0.2),
                              "scale": rng.choice([1.0, 0.5, -0.25]), "shift": rng.choice([0.0, -100.0])}
             keys.append(k)
+    ro, uo = list(range(len(keys))), list(range(len(keys)))
+    rng.shuffle(ro)
+    rng.shuffle(uo)
     return {"kind": "param", "n": n, "b": b, "method": method, "requests": requests, "keys": keys,
-            "seed": rng.randrange(1 << 30)}
+            "range_order": ro, "user_order": uo, "seed": rng.randrange(1 << 30)}
 
 
-def _multi_case(rng, n, b, requests):
+def _orders(rng, k):
+    out = {}
+    for d in ("pin", "val", "eq"):
+        o = list(range(k))
+        rng.shuffle(o)
+        out[d] = o
+    return out
+
+
+def _multi_case(rng, n, b, requests, nnets=None, equal=None):
     nets = []
-    for i, name in enumerate(["u", "v", "w"][: rng.randint(2, 3)]):
-        if rng.random() < 0.4:
+    equal = (rng.random() < 0.6) if equal is None else equal      # equal sizes: a mix-up cannot raise
+    for i, name in enumerate(["u", "v", "w"][: (nnets or rng.randint(2, 3))]):
+        if rng.random() < 0.35:
             nets.append({"name": name, "pin": None, "val": None, "eq": []})
         else:
-            ni = n + rng.choice([0, 0, 1, 3])
+            ni = n if equal else n + rng.choice([0, 0, 1, 3])
             neq = rng.randint(0, 1)
             nets.append({"name": name, "pin": _spec(1 + 10 * i, ni, rng.choice(["1d", "2d"]), rng.randint(1, 2)),
                          "val": _spec(2 + 10 * i, ni, rng.choice(["1d", "2d"]), 1),
@@ -146,7 +181,8 @@ def _multi_case(rng, n, b, requests):
     if all(x["pin"] is None for x in nets):
         nets[0] = {"name": nets[0]["name"], "pin": _spec(1, n, "2d", 2), "val": _spec(2, n, "1d", 1), "eq": []}
     return {"kind": "multi", "b": b, "n": n, "requests": requests, "nets": nets, "pin_given": True, "val_given": True,
-            "eq_mode": rng.choice(["given", "none"]), "seed": rng.randrange(1 << 30)}
+            "eq_mode": rng.choice(["given", "given", "none"]), "orders": _orders(rng, len(nets)),
+            "seed": rng.randrange(1 << 30)}
 
 
 def _req(rng, n, b, deep):
@@ -180,6 +216,12 @@ def gen_cases(rng, tier):
         for _ in range(6 if deep else 2):
             b = rng.randint(1, n)
             cases.append(_multi_case(rng, n, b, _req(rng, n, b, deep)))
+    # equal table sizes, 2 and 3 networks, None entries at varying positions, shuffled dict orders
+    for nnets in (2, 3):
+        for _ in range(6 if deep else 3):
+            n = rng.choice([2, 3, 4, 6])
+            b = rng.randint(1, n)
+            cases.append(_multi_case(rng, n, b, _req(rng, n, b, deep), nnets=nnets, equal=True))
     # ---- malformed stream
     bad = []
     c = _obs_case(rng, 4, 2, 1); c["val"] = _spec(2, 5, "1d"); bad.append(c)                 # lengths differ
@@ -236,7 +278,9 @@ def shrink_candidates(case):
             yield {**case, "b": case["b"] - 1}
         if len(case["keys"]) > 1:
             for i in range(len(case["keys"])):
-                yield {**case, "keys": case["keys"][:i] + case["keys"][i + 1:]}
+                fix = lambda o: [j - (j > i) for j in (o or []) if j != i] or None  # noqa: E731
+                yield {**case, "keys": case["keys"][:i] + case["keys"][i + 1:],
+                       "range_order": fix(case.get("range_order")), "user_order": fix(case.get("user_order"))}
     elif case["kind"] == "multi":
         if case["b"] > 1:
             yield {**case, "b": case["b"] - 1}
@@ -244,7 +288,10 @@ def shrink_candidates(case):
             for i in range(len(case["nets"])):
                 rest = case["nets"][:i] + case["nets"][i + 1:]
                 if any(x["pin"] is not None for x in rest):
-                    yield {**case, "nets": rest}
+                    od = case.get("orders")
+                    if od:
+                        od = {d: [j - (j > i) for j in o if j != i] for d, o in od.items()}
+                    yield {**case, "nets": rest, "orders": od}
 
 
 def _perm(rows0, rows):
@@ -263,8 +310,8 @@ def _perm(rows0, rows):
 def _batch_json(bt):
     import numpy as np
 
-    return {"pin": core.qlist(np.asarray(bt["pinn_in"])), "val": core.qlist(np.asarray(bt["val"])),
-            "eq": [[k, core.qlist(np.asarray(v))] for k, v in sorted(bt["eq_params"].items())]}
+    return {"pin": _ql(np.asarray(bt["pinn_in"])), "val": _ql(np.asarray(bt["val"])),
+            "eq": [[k, _ql(np.asarray(v))] for k, v in sorted(bt["eq_params"].items())]}
 
 
 def _run_obs(case):
@@ -305,8 +352,14 @@ def _run_param(case):
     import numpy as np
     from jinns.data._DataGenerators import DataGeneratorParameter
 
-    ranges = {k["name"]: tuple(k["range"]) for k in case["keys"] if k["range"] is not None}
-    user = {k["name"]: _table(k["user"]) for k in case["keys"] if k["user"] is not None}
+    ks = case["keys"]
+    ro = case.get("range_order") or list(range(len(ks)))
+    uo = case.get("user_order") or list(range(len(ks)))
+    if sorted(ro) != list(range(len(ks))) or sorted(uo) != list(range(len(ks))):
+        ro = uo = list(range(len(ks)))
+    # the two dicts are built in independently shuffled insertion orders: the merge must be by key
+    ranges = {ks[i]["name"]: tuple(ks[i]["range"]) for i in ro if ks[i]["range"] is not None}
+    user = {ks[i]["name"]: _table(ks[i]["user"]) for i in uo if ks[i]["user"] is not None}
     obs = {"error": None, "stage": None, "steps": [], "resets": 0, "stores": None,
            "user": [[k, _tbl_json(v)] for k, v in sorted(user.items())]}
     try:
@@ -316,7 +369,7 @@ def _run_param(case):
         obs["error"], obs["stage"] = core.err_kind(e), "init"
         return obs
     st0 = {k: np.asarray(v) for k, v in g.param_n_samples.items()}
-    obs["stores"] = [[k, core.qlist(v)] for k, v in sorted(st0.items())]
+    obs["stores"] = [[k, _ql(v)] for k, v in sorted(st0.items())]
     obs["store_shapes"] = {k: list(v.shape) for k, v in st0.items()}
     prev = {k: v.copy() for k, v in st0.items()}
     for r in range(case["requests"]):
@@ -331,7 +384,7 @@ def _run_param(case):
             if r > 0 and not np.array_equal(st, prev[k]):
                 obs["resets"] += 1
             prev[k] = st.copy()
-            step.append({"name": k, "perm": _perm(list(st0[k]), list(st)), "batch": core.qlist(np.asarray(bt[k])),
+            step.append({"name": k, "perm": _perm(list(st0[k]), list(st)), "batch": _ql(np.asarray(bt[k])),
                          "shape": list(bt[k].shape)})
         obs["steps"].append(step)
     return obs
@@ -346,13 +399,19 @@ def _run_multi(case):
     def arr(spec):
         return None if spec is None else jnp.asarray(_table(spec))
 
-    pin = {x["name"]: arr(x["pin"]) for x in case["nets"]} if case["pin_given"] else None
-    val = {x["name"]: arr(x["val"]) for x in case["nets"]} if case["val_given"] else None
+    nets = case["nets"]
+    ident = list(range(len(nets)))
+    od = case.get("orders") or {}
+    od = {d: (od.get(d) if sorted(od.get(d) or []) == ident else ident) for d in ("pin", "val", "eq")}
+    # the user's dictionaries are built in independently shuffled INSERTION orders (same key sets):
+    # the loader must pair the networks' tables by key, not by position
+    pin = {nets[i]["name"]: arr(nets[i]["pin"]) for i in od["pin"]} if case["pin_given"] else None
+    val = {nets[i]["name"]: arr(nets[i]["val"]) for i in od["val"]} if case["val_given"] else None
     if case.get("val_keys_extra") and val is not None:
         val["zz_extra"] = None
     eqd = None
     if case["eq_mode"] == "given":
-        eqd = {x["name"]: {k: arr(t) for k, t in x["eq"]} for x in case["nets"]}
+        eqd = {nets[i]["name"]: {k: arr(t) for k, t in nets[i]["eq"]} for i in od["eq"]}
         if case.get("eq_keys_missing"):
             eqd.pop(case["nets"][-1]["name"])
     obs = {"error": None, "stage": None, "steps": [], "resets": 0, "empty_kinds": [],
@@ -453,6 +512,8 @@ def _flat(a):
 def judge(case, obs, a):
     if a is None:
         return {"status": "violation", "clause": "batch-array-rank-is-not-2-(rows-x-columns)"}
+    if a.get("nonfinite"):
+        return {"status": "violation", "clause": a["clause"]}
     if a["error"] == "sampler_contract":
         if not a["holds"]:
             return {"status": "violation", "clause": a["clause"]}
@@ -460,6 +521,10 @@ def judge(case, obs, a):
     if obs["error"] is not None and a["error"] is None and case["kind"] == "param" and obs["stage"] == "init":
         # the property itself says the user's table is accepted in both documented shapes
         return {"status": "violation", "clause": "param-user-table-of-a-documented-shape-rejected",
+                "impl": [obs["error"], obs["stage"]]}
+    if obs["error"] is not None and a["error"] is None:
+        # tables the model (hence the documentation) accepts: no aligned batch is served at all
+        return {"status": "violation", "clause": "legal-configuration-rejected:" + obs["error"] + "@" + obs["stage"],
                 "impl": [obs["error"], obs["stage"]]}
     if (obs["error"], obs["stage"]) != (a["error"], a["stage"]):
         return {"status": "disagree", "clause": "rejection-differs", "impl": [obs["error"], obs["stage"]],
@@ -520,6 +585,8 @@ def tags(case, obs):
     else:
         out.append(f"nets={len(case['nets'])}")
         out.append(f"nets_without_data={sum(1 for x in case['nets'] if x['pin'] is None)}")
+        od = case.get("orders") or {}
+        out.append("dict_orders_differ" if len({tuple(o) for o in od.values()}) > 1 else "dict_orders_equal")
         for kname in sorted(set(obs.get("empty_kinds", []))):
             out.append(f"empty_entry={kname}")
     if obs.get("error"):
